@@ -80,7 +80,7 @@ fn models(tier: Tier) -> Vec<(usize, Model)> {
     let long = c08::long_profile_sets().len();
     let all = c08::profile_sets();
     for (k, ts) in all.iter().enumerate() {
-        if tier.quick() && k + long >= all.len() + 1 {
+        if tier.quick() && k + long >= all.len() + 2 {
             continue;
         }
         for o in CumOpts::all() {
